@@ -38,7 +38,7 @@ struct World {
 	bool released      = false;
 	// empty messages carry no tag: they are judged by count (received <= accepted always, == under conservation)
 	long empty_accepted = 0, empty_received = 0;
-	int  tran[NPULL] = {0, 0, 0}; // 0 inproc, 1 ipc, 2 tcp
+	int  tran[NPULL] = {0, 0, 0}; // 0 inproc, 1 ipc, 2 tcp, 3 ws
 	char url[NPULL][96];
 	bool push_listens[NPUSH] = {false, false};
 	bool wire = false; // some puller sits behind a kernel transport
@@ -163,7 +163,7 @@ exec_c06(const vcase *vc)
 	int first = 1;
 	if (vc->nops > 1 && strcmp(vc->ops[1].name, "trans") == 0) {
 		for (int q = 0; q < NPULL; q++)
-			W.tran[q] = (int) vop_arg(&vc->ops[1], q, 0) % 3;
+			W.tran[q] = (int) vop_arg(&vc->ops[1], q, 0) % 4;
 		first = 2;
 	}
 	for (int q = 0; q < NPULL; q++) {
@@ -174,11 +174,14 @@ exec_c06(const vcase *vc)
 			unlink(W.url[q] + 6);
 			H_OK(nng_listen(W.pull[q], W.url[q], &l, 0));
 			W.wire = true;
-		} else if (W.tran[q] == 2) {
-			H_OK(nng_listen(W.pull[q], "tcp://127.0.0.1:0", &l, 0));
+		} else if (W.tran[q] == 2 || W.tran[q] == 3) {
+			const char *sch = W.tran[q] == 2 ? "tcp" : "ws";
+			char        lu[64];
+			snprintf(lu, sizeof lu, "%s://127.0.0.1:0", sch);
+			H_OK(nng_listen(W.pull[q], lu, &l, 0));
 			int port = 0;
 			H_OK(nng_listener_get_int(l, NNG_OPT_BOUND_PORT, &port));
-			snprintf(W.url[q], sizeof W.url[q], "tcp://127.0.0.1:%d", port);
+			snprintf(W.url[q], sizeof W.url[q], "%s://127.0.0.1:%d", sch, port);
 			W.wire = true;
 		} else {
 			snprintf(W.url[q], sizeof W.url[q], "inproc://c06-%d", q);
@@ -427,7 +430,7 @@ gen_c06()
 	// transport behind each puller: mostly inproc, sometimes ipc / tcp
 	t << "trans";
 	for (int q = 0; q < NPULL; q++)
-		t << " " << *pbt::welem<int>({{5, 0}, {2, 1}, {2, 2}});
+		t << " " << *pbt::welem<int>({{5, 0}, {2, 1}, {2, 2}, {2, 3}});
 	t << "\n";
 	auto ops = *gen::container<std::vector<std::string>>(genOp());
 	for (auto &l : ops)
